@@ -1,7 +1,7 @@
 (* Every node the builder stores carries its own key in its id field (for every Add sequence,
    valid or not).  Independent of the other invariants; used by the traversal that reads ids. *)
 From Coq Require Import List NArith ZArith Bool Lia.
-From Mamba Require Import Dawg.Model Dawg.Tree Dawg.Spec Dawg.TreeFacts.
+From Mamba Require Import Dawg.Model Dawg.Tree Dawg.Spec Dawg.TreeFacts Dawg.BuildStore.
 Import ListNotations.
 
 Definition ids_ok (s : store) : Prop := forall i n, sget s i = Some n -> nid n = i.
@@ -107,4 +107,111 @@ Theorem new_dawg_ids : forall ws s, new_dawg ws = Ok (Some s) -> ids_ok s.
 Proof.
   intros ws s H. unfold new_dawg in H. bind_inv H. destruct a as [b|]; [|discriminate].
   eapply finish_ids; eauto. eapply add_all_ids; eauto. apply ids_initialise.
+Qed.
+
+(* ---------------------------------------------------------------- keys are bounded by the
+   number of letters added (every key in use is at most the last id handed out, and an Add
+   hands out at most one id per letter of its word); again for every Add sequence *)
+
+Fixpoint total_letters (ws : list word) : N :=
+  match ws with [] => 0%N | w :: r => (N.of_nat (length w) + total_letters r)%N end.
+
+Lemma bound_sset_in : forall s L i n m, bound s L -> sget s i = Some m -> bound (sset s i n) L.
+Proof. intros s L i n m HB Hi. apply bound_sset; auto. eapply HB; eauto. Qed.
+
+Lemma bump_bound : forall s i s' L, bump s i = Ok s' -> bound s L -> bound s' L.
+Proof.
+  intros s i s' L H HB. unfold bump in H. bind_inv H. inversion H; subst.
+  eapply bound_sset_in; eauto. apply deref_some. exact E.
+Qed.
+
+Lemma cpf_bound : forall w s i s' sf ln L, common_prefix_from s i w = Ok (s', sf, ln) -> bound s L ->
+  bound s' L /\ (length sf <= length w)%nat.
+Proof.
+  induction w as [|c w IH]; intros s i s' sf ln L H HB; cbn [common_prefix_from] in H.
+  - inversion H; subst. split; [exact HB|simpl; lia].
+  - bind_inv H. destruct (index_of c (nlabels a)); [|inversion H; subst; split; [exact HB|lia]].
+    destruct (nth_error (nkids a) n); [|discriminate]. bind_inv H.
+    destruct (IH _ _ _ _ _ L H (bump_bound _ _ _ _ E0 HB)) as [H1 H2]. split; [exact H1|simpl; lia].
+Qed.
+
+Lemma ror_bound : forall fuel s t reg s' reg' L, replace_or_register fuel s t reg = Ok (s', reg') -> bound s L -> bound s' L.
+Proof.
+  induction fuel as [|f IH]; intros s t reg s' reg' L H HB; cbn [replace_or_register] in H; [discriminate|].
+  bind_inv H. destruct (last_opt (nkids a)) as [lc|]; [|discriminate].
+  bind_inv H. bind_inv H. destruct a1 as [s1 reg1].
+  assert (HB1 : bound s1 L).
+  { destruct (nkids a0); [inversion E1; subst; exact HB|]. eapply IH; eauto. }
+  bind_inv H. bind_inv H. destruct a2 as [u|].
+  - bind_inv H. inversion H; subst. eapply bound_sset_in; eauto. apply deref_some. exact E4.
+  - inversion H; subst. exact HB1.
+Qed.
+
+Lemma add_suffix_bound : forall sf s cur L s' L', add_suffix s cur sf L = Ok (s', L') -> bound s L ->
+  bound s' L' /\ L' = (L + N.of_nat (length sf))%N.
+Proof.
+  induction sf as [|b sf IH]; intros s cur L s' L' H HB; cbn [add_suffix] in H.
+  - bind_inv H. inversion H; subst. split; [|simpl; lia]. eapply bound_sset_in; eauto. apply deref_some. exact E.
+  - bind_inv H. apply IH in H.
+    + destruct H as [H1 H2]. split; [exact H1|]. rewrite H2. cbn [length]. lia.
+    + apply bound_sset; [|lia]. eapply bound_mono; [|apply N.le_succ_diag_r].
+      eapply bound_sset_in; eauto. apply deref_some. exact E.
+Qed.
+
+Lemma add_bound : forall b w b' ok, add b w = Ok (b', ok) -> bound (bstore b) (blastid b) ->
+  bound (bstore b') (blastid b') /\ (blastid b' <= blastid b + N.of_nat (length w))%N.
+Proof.
+  intros b w b' ok H HB. unfold add in H.
+  destruct (bdone b); [inversion H; subst; split; [exact HB|lia]|].
+  destruct (rejects b w); [inversion H; subst; split; [exact HB|lia]|].
+  bind_inv H. destruct a as [[s1 sf] ln]. bind_inv H. bind_inv H. destruct a0 as [s2 reg2].
+  bind_inv H. destruct a0 as [s3 l3]. inversion H; subst. cbn [bstore blastid].
+  unfold common_prefix in E. bind_inv E.
+  destruct (cpf_bound _ _ _ _ _ _ _ E (bump_bound _ _ _ _ E3 HB)) as [H1 Hlen].
+  assert (H2 : bound s2 (blastid b)).
+  { destruct (nkids a); [inversion E1; subst; exact H1|]. eapply ror_bound; eauto. }
+  destruct (add_suffix_bound _ _ _ _ _ _ E2 H2) as [H3 ->]. split; [exact H3|lia].
+Qed.
+
+Lemma bound_initialise : bound (bstore initialise) (blastid initialise).
+Proof.
+  unfold initialise. cbn [bstore blastid]. intros i n H. destruct (N.eq_dec root i) as [<-|NE]; [unfold root; lia|].
+  rewrite sget_sset_other, sget_sempty in H; [discriminate|exact NE].
+Qed.
+
+Lemma add_all_bound : forall ws b b', add_all b ws = Ok (Some b') -> bound (bstore b) (blastid b) ->
+  bound (bstore b') (blastid b') /\ (blastid b' <= blastid b + total_letters ws)%N.
+Proof.
+  induction ws as [|w ws IH]; intros b b' H HB; cbn [add_all] in H.
+  - inversion H; subst. split; [exact HB|simpl; lia].
+  - bind_inv H. destruct a as [b1 ok]. destruct ok; [|discriminate].
+    destruct (add_bound _ _ _ _ E HB) as [H1 H2]. destruct (IH _ _ H H1) as [H3 H4].
+    split; [exact H3|]. cbn [total_letters]. lia.
+Qed.
+
+Lemma add_seq_bound : forall ws b b' oks, add_seq b ws = Ok (b', oks) -> bound (bstore b) (blastid b) ->
+  bound (bstore b') (blastid b') /\ (blastid b' <= blastid b + total_letters ws)%N.
+Proof.
+  induction ws as [|w ws IH]; intros b b' oks H HB; cbn [add_seq] in H.
+  - inversion H; subst. split; [exact HB|simpl; lia].
+  - bind_inv H. destruct a as [b1 ok]. bind_inv H. destruct a as [b2 oks2]. inversion H; subst.
+    destruct (add_bound _ _ _ _ E HB) as [H1 H2]. destruct (IH _ _ _ E0 H1) as [H3 H4].
+    split; [exact H3|]. cbn [total_letters]. lia.
+Qed.
+
+Lemma finish_bound : forall b s L, finish b = Ok (Some s) -> bound (bstore b) L -> bound s L.
+Proof.
+  intros b s L H HB. unfold finish in H. destruct (bdone b); [discriminate|].
+  bind_inv H. destruct (nkids a); [inversion H; subst; exact HB|].
+  bind_inv H. destruct a0 as [s' reg']. inversion H; subst. eapply ror_bound; eauto.
+Qed.
+
+(* every key of the automaton New returns is at most the number of letters of its argument *)
+Theorem new_dawg_keys_bound : forall ws s, new_dawg ws = Ok (Some s) ->
+  forall i n, sget s i = Some n -> (i <= total_letters ws)%N.
+Proof.
+  intros ws s H. unfold new_dawg in H. bind_inv H. destruct a as [b|]; [|discriminate].
+  destruct (add_all_bound _ _ _ E bound_initialise) as [H1 H2].
+  pose proof (finish_bound _ _ _ H H1) as HB. intros i n Hi. specialize (HB i n Hi).
+  unfold initialise in H2. cbn [blastid] in H2. lia.
 Qed.
